@@ -150,3 +150,21 @@ def digraph_scc(rng, max_nodes=6):
         if e not in seen:
             seen.add(e); e2.append(e)
     return nodes, e2
+
+
+def arbitrary_flow(rng, edges, values=(1, 2, 3, 5, 8), p_zero=0.2, wtype=int):
+    """non-conserving edge values (for the error models): every edge draws independently from `values`,
+    or 0 with probability `p_zero`"""
+    return {e: (wtype(0) if rng.random() < p_zero else wtype(rng.choice(values))) for e in edges}
+
+
+def length_ranges(rng, top=100, max_pieces=3, factors=(1, 2, 0.5, 1.5, 1.25, 3)):
+    """consecutive integer ranges [0,a],[a+1,b],...,[.., top] with one factor per range
+    (`path_length_ranges` / `path_length_factors` of kMinPathError)"""
+    pieces = rng.randint(1, max_pieces)
+    cuts = sorted(rng.sample(range(1, 8), pieces - 1))
+    lo, ranges = 0, []
+    for c in cuts:
+        ranges.append([lo, c]); lo = c + 1
+    ranges.append([lo, top])
+    return ranges, [rng.choice(factors) for _ in ranges]
